@@ -2,6 +2,8 @@ package props
 
 import (
 	"context"
+	"io"
+	"log"
 	"math/rand"
 	"net"
 	"net/http"
@@ -14,8 +16,13 @@ import (
 	"github.com/fullstorydev/grpchan/inprocgrpc"
 	"google.golang.org/grpc"
 	"google.golang.org/grpc/credentials/insecure"
+	"google.golang.org/grpc/grpclog"
 	"google.golang.org/grpc/test/bufconn"
 )
+
+func init() {
+	grpclog.SetLoggerV2(grpclog.NewLoggerV2(io.Discard, io.Discard, io.Discard))
+}
 
 func timeUnix(r *rand.Rand) time.Time {
 	return time.Unix(int64(r.Intn(2000000000)), int64(r.Intn(1000000000))).UTC()
@@ -119,11 +126,13 @@ func NewHTTPMux(svc *Service, o carrierOpt) *Carrier {
 func httpCarrier(name string, svc *Service, h http.Handler, base string, useTLS bool) *Carrier {
 	var ts *httptest.Server
 	tr := newHTTPTransport()
+	ts = httptest.NewUnstartedServer(h)
+	ts.Config.ErrorLog = log.New(io.Discard, "", 0)
 	if useTLS {
-		ts = httptest.NewTLSServer(h)
+		ts.StartTLS()
 		tr = ts.Client().Transport.(*http.Transport)
 	} else {
-		ts = httptest.NewServer(h)
+		ts.Start()
 	}
 	u, _ := url.Parse(ts.URL)
 	u.Path = base
